@@ -327,6 +327,74 @@ def check_one(case, choices=None, default="rr"):
     return ra, None
 
 
+def stacked_cases():
+    out = []
+    for kind in ("class", "gen"):
+        for between in ("wraps", "plain", "none"):
+            for times in (2, 3):
+                out.append({"kind": kind, "between": between, "times": times})
+    return out
+
+
+def check_stacked(case):
+    """one manager object applied to a function several times (``@cm @audited @cm``), with a ``functools.wraps``
+    decorator of the caller in between or not: every application is one enter / exit around the call, exactly as
+    with contextlib's decorators - being decorated already changes nothing"""
+    import functools
+    from ..driver import run
+
+    def side(impl):
+        counts = {"enter": 0, "exit": 0, "body": 0}
+        base = a.ContextDecorator if impl == "a" else contextlib.AsyncContextDecorator
+
+        class Manager(base):
+            async def __aenter__(self):
+                counts["enter"] += 1
+                return self
+
+            async def __aexit__(self, *exc):
+                counts["exit"] += 1
+                return False
+
+        async def gen():
+            counts["enter"] += 1
+            try:
+                yield
+            finally:
+                counts["exit"] += 1
+
+        def audited(fn):
+            @functools.wraps(fn)
+            async def wrapper(*args, **kwargs):
+                return await fn(*args, **kwargs)
+            return wrapper
+
+        def plain(fn):
+            async def wrapper(*args, **kwargs):
+                return await fn(*args, **kwargs)
+            return wrapper
+
+        cm = Manager() if case["kind"] == "class" else \
+            (a.contextmanager if impl == "a" else contextlib.asynccontextmanager)(gen)()
+
+        async def body():
+            counts["body"] += 1
+            return "result"
+
+        fn = body
+        for k in range(case["times"]):
+            fn = cm(fn)
+            if k + 1 < case["times"] and case["between"] != "none":
+                fn = (audited if case["between"] == "wraps" else plain)(fn)
+        outcome = run(Ctx(impl), fn())
+        return outcome[0], (outcome[1] if outcome[0] == "return" else type(outcome[1]).__name__), dict(counts)
+
+    got, want = side("a"), side("s")
+    if got != want:
+        raise Violation("C15/stacked-decoration-differs", f"{case}: asyncstdlib={got} contextlib={want}")
+    return {"evaluations": 1, "nontrivial": ["x"], "labels": {}}
+
+
 def check(case):
     ra, problem = check_one(case)
     if problem:
@@ -374,4 +442,5 @@ def shards(tier):
         cfgs = [c for c in cfgs if len(c["tasks"][0]) == 1]
     out += [Shard(f"exhaustive-{j}", check_exhaustive, cases=(lambda part=cfgs[j::4]: part),
                   nontrivial=lambda c: False, exhaustive=True) for j in range(4)]
+    out.append(Shard("stacked-decoration", check_stacked, cases=stacked_cases, nontrivial=lambda c: False, exhaustive=True))
     return out
